@@ -1,9 +1,17 @@
-//! package `misc` (see CONVENTIONS.md): register components here.
+//! package `misc` (see CONVENTIONS.md): C35 bins, C38 membal, C37 xducer, C39 opts.
+pub mod bins;
+pub mod inst;
+pub mod membal;
+pub mod opts;
+pub mod xducer;
 
 pub fn dispatch(tokens: &[&str]) -> Option<String> {
-    let (c, _args) = tokens.split_first()?;
-    #[allow(clippy::match_single_binding)]
+    let (c, args) = tokens.split_first()?;
     Some(match *c {
+        "bins" => bins::run(args),
+        "membal" => membal::run(args),
+        "opts" => opts::run(args),
+        "xducer" => xducer::run(args),
         _ => return None,
     })
 }
